@@ -11,8 +11,11 @@ import (
 	"testing"
 
 	"github.com/cnotch/xlog"
+	"pgregory.net/rapid"
 	"verif/harness/lib/evid"
 	"verif/harness/lib/fakecam"
+	"verif/harness/lib/mediah"
+	"verif/harness/lib/rtppack/esgen"
 )
 
 type syncBuf struct {
@@ -308,4 +311,185 @@ func joinFailures(fs []fail) string {
 		fmt.Fprintf(&b, "\n- %s: %s", f.check, f.msg)
 	}
 	return b.String()
+}
+
+// ---------------------------------------------------------------- generated multi-fault scenarios
+
+func genBehaviour(t *rapid.T, st fakecam.Step, label string) fakecam.Behaviour {
+	var kinds []fakecam.Kind
+	for k := fakecam.Basic401; k < fakecam.NumKinds; k++ {
+		if fakecam.Applicable(k, st) {
+			kinds = append(kinds, k)
+		}
+	}
+	// challenges are the deviation a handshake survives, so they get extra weight
+	if st != fakecam.Accept && rapid.IntRange(0, 9).Draw(t, label+"-auth") < 6 {
+		k := fakecam.Digest401
+		if rapid.Bool().Draw(t, label+"-basic") {
+			k = fakecam.Basic401
+		}
+		n := 1
+		if rapid.IntRange(0, 4).Draw(t, label+"-repeat") == 0 {
+			n = rapid.IntRange(2, 3).Draw(t, label+"-n")
+		}
+		return fakecam.Behaviour{Kind: k, N: n}
+	}
+	k := rapid.SampledFrom(kinds).Draw(t, label+"-kind")
+	b := fakecam.Behaviour{Kind: k}
+	switch k {
+	case fakecam.Basic401, fakecam.Digest401:
+		b.N = rapid.IntRange(1, 3).Draw(t, label+"-n")
+	case fakecam.Status:
+		b.Code = rapid.SampledFrom([]int{400, 401, 403, 404, 405, 451, 454, 455, 461, 462, 500, 501, 503, 505, 551}).Draw(t, label+"-code")
+	default:
+		b.Variant = rapid.IntRange(0, fakecam.Variants(k, st)-1).Draw(t, label+"-variant")
+	}
+	return b
+}
+
+func genScenario(t *rapid.T) *scenario {
+	sc := &scenario{Mode: rapid.SampledFrom([]string{"direct", "direct", "direct", "rtsp", "flv"}).Draw(t, "mode")}
+	sc.Audio = rapid.Bool().Draw(t, "audio")
+	sc.Creds = rapid.SampledFrom([]string{"right", "right", "right", "right", "right", "right", "right", "none", "wrong", "md5cam"}).Draw(t, "creds")
+	sc.User = rapid.StringMatching(`[A-Za-z0-9._-]{1,10}`).Draw(t, "user")
+	// passwords with everything a URL has to escape; no '"' or '\' (quoted-string of the Digest header)
+	sc.Pass = rapid.StringMatching(`[A-Za-z0-9:@/?#%&=+ !$*,;~._-]{0,14}`).Draw(t, "pass")
+	sc.DirRoute = rapid.IntRange(0, 3).Draw(t, "dir") == 0
+	sc.TrailingSlash = rapid.Bool().Draw(t, "slash")
+	sc.MixedCase = rapid.IntRange(0, 4).Draw(t, "mixed") == 0
+	if !sc.DirRoute {
+		sc.URLShape = rapid.SampledFrom([]string{"", "", "nopath", "root", "query", "deep"}).Draw(t, "shape")
+	}
+	sc.SessionTimeout = rapid.Bool().Draw(t, "sessionTimeout")
+	sc.CacheGop = rapid.Bool().Draw(t, "cacheGop") && sc.Mode != "rtsp"
+	// 0..3 deviating steps (possibly behind each other), the rest ok; the accept
+	// step ends everything, so it is drawn rarely
+	walk := sc.walk()
+	n := rapid.SampledFrom([]int{0, 1, 1, 2, 2, 2, 3, 3}).Draw(t, "deviations")
+	for i := 0; i < n; i++ {
+		st := walk[rapid.IntRange(1, len(walk)-1).Draw(t, "step")]
+		if rapid.IntRange(0, 11).Draw(t, "atAccept") == 0 {
+			st = fakecam.Accept
+		}
+		if sc.Steps[st].Kind != fakecam.OK {
+			continue
+		}
+		sc.Steps[st] = genBehaviour(t, st, st.String())
+	}
+	sc.Initial = rapid.IntRange(0, 6).Draw(t, "initial")
+	sc.Consumers = rapid.IntRange(0, 2).Draw(t, "consumers")
+	sc.Live = rapid.IntRange(0, 10).Draw(t, "live")
+	sc.Paced = sc.Live > 0 && sc.Live <= 4 && rapid.IntRange(0, 3).Draw(t, "paced") == 0
+	sc.End = rapid.IntRange(0, int(fakecam.NumAfters)-1).Draw(t, "end")
+	if fakecam.After(sc.End) == fakecam.AfterGarbage {
+		sc.EndVariant = rapid.IntRange(0, fakecam.GarbageVariants-1).Draw(t, "garbage")
+	}
+	sc.AutoFinish = fakecam.After(sc.End) != fakecam.Continue && rapid.IntRange(0, 4).Draw(t, "auto") == 0
+	sc.FollowUp = rapid.IntRange(0, 2).Draw(t, "followUp") == 0
+	// the programme: generated access units in every legal packetisation
+	cfg := esgen.Config{Codec: esgen.H264, MaxNAL: 1200, Tags: true, MaxAUs: 8, MaxGOP: 4, MaxUnits: 24, RealParamSets: true}
+	aus := cfg.DrawSequence(t)
+	mediah.PadTinySlices(esgen.H264, aus)
+	vs := esgen.Packetise(t, esgen.H264, aus, esgen.PackConfig{MaxPacket: 1400, MaxFrags: 4})
+	var as *esgen.Stream
+	if sc.Audio {
+		ac := esgen.AacConfig{MaxAUs: 6, MaxAUSize: 300, Tags: true}
+		as = esgen.PacketiseAac(t, ac, ac.DrawAacAUs(t), esgen.PackConfig{})
+	}
+	merge := rapid.SliceOfN(rapid.Bool(), 64, 64).Draw(t, "merge")
+	sc.frames = fakecam.FramesOf(vs, as, func(i int) bool { return merge[i%len(merge)] })
+	// generated programmes are short; deterministic frames follow as material for live / push / feed
+	tail := 70
+	if sc.Mode == "flv" {
+		tail = 800
+	}
+	for _, f := range fakecam.SimpleFrames(tail, sc.Audio) {
+		sc.frames = append(sc.frames, f)
+	}
+	return sc
+}
+
+// TestMultiFault: rapid-generated vectors of deviations over the whole
+// handshake and the play phase, with generated credentials, routes and
+// programmes, through all request modes.
+func TestMultiFault(t *testing.T) {
+	evid.Checks(110, 2500)
+	rapid.Check(t, func(t *rapid.T) {
+		sc := genScenario(t)
+		serial.Lock()
+		res := runScenario(sc, requesterFor(sc.Mode))
+		serial.Unlock()
+		evid.Eval(1)
+		classify(sc, res)
+		nDev := 0
+		for _, b := range sc.Steps {
+			if b.Kind != fakecam.OK {
+				nDev++
+			}
+		}
+		evid.Class(fmt.Sprintf("generated: %d deviating steps, creds=%s, mode=%s", nDev, sc.Creds, sc.Mode))
+		if len(res.failures) > 0 {
+			evid.Violation(t, "multi-fault/"+res.failures[0].check, sc, "scenario {%s}:%s", sc.key(), joinFailures(res.failures))
+		}
+	})
+}
+
+// TestConcurrentFirstRequests: 2..4 simultaneous first requests for one routed
+// path — ordered through the getorcreate.missed schedule point (request k+1
+// runs entirely between request k's registry miss and its pull) or free-running
+// — end with exactly one registered stream; every requester is served; streams
+// that lost the registration and have no consumer are closed and their camera
+// connection released; in the end nothing is left behind.
+func TestConcurrentFirstRequests(t *testing.T) {
+	evid.Checks(30, 600)
+	rapid.Check(t, func(t *rapid.T) {
+		cc := &concurrentCase{Injected: rapid.IntRange(0, 3).Draw(t, "injected") != 0, Digest: rapid.Bool().Draw(t, "digest"), Audio: rapid.Bool().Draw(t, "audio")}
+		n := rapid.IntRange(2, 4).Draw(t, "requesters")
+		allDirect := rapid.Bool().Draw(t, "allDirect")
+		for i := 0; i < n; i++ {
+			m := "direct"
+			if !allDirect {
+				m = rapid.SampledFrom([]string{"direct", "rtsp", "flv"}).Draw(t, "mode")
+			}
+			cc.Modes = append(cc.Modes, m)
+		}
+		serial.Lock()
+		res := concurrent(cc)
+		serial.Unlock()
+		evid.Eval(1)
+		evid.Class(fmt.Sprintf("simultaneous: %d requesters, injected=%v -> %d pulls", n, cc.Injected, res.pulls))
+		if res.pulls >= 2 {
+			evid.Nontrivial(evid.FP("concurrent", cc.key()))
+			evid.Class("simultaneous: two or more requests missed the registry and pulled")
+		}
+		if evid.WantSample("simultaneous") {
+			evid.Sample("simultaneous", map[string]any{"case": cc, "pulls": res.pulls, "windows_fired": res.fired})
+		}
+		if len(res.failures) > 0 {
+			evid.Violation(t, "concurrent/"+res.failures[0].check, cc, "case {%s}:%s", cc.key(), joinFailures(res.failures))
+		}
+	})
+}
+
+// TestFixedWitnesses re-executes the minimal witnesses of the defects this
+// check found and that were repaired in ipchub (regression guard).
+func TestFixedWitnesses(t *testing.T) {
+	base := func() *scenario {
+		return &scenario{Audio: false, Creds: "right", User: "admin", Pass: "pw", Initial: 2, Consumers: 1, Live: 3, End: int(fakecam.AfterEOF), Mode: "direct", FollowUp: true}
+	}
+	var scs []*scenario
+	// a camera that accepts and never answers used to hang the requester for ever
+	s1 := base()
+	s1.Name = "witness: silent camera"
+	s1.Steps[fakecam.Options] = fakecam.Behaviour{Kind: fakecam.Silence}
+	// a media section without format used to panic in requestSDP and leak the connection
+	s2 := base()
+	s2.Name = "witness: m=video 0 udp 96"
+	s2.Steps[fakecam.Describe] = fakecam.Behaviour{Kind: fakecam.FormatlessSDP, Variant: 0}
+	// a route URL without path used to panic in getSetupURL
+	s3 := base()
+	s3.Name = "witness: rtsp://host:port without path"
+	s3.URLShape = "nopath"
+	scs = append(scs, s1, s2, s3)
+	runBatch(t, "fixed-witness", scs)
 }
